@@ -26,7 +26,7 @@ func init() {
 		Old: "\tif neg {\n\t\tstart--\n\t\tnum[start] = '-'\n\t}\n\treturn num[start:end]\n}\n\n// Number minifies", New: "\tif neg {\n\t\tstart--\n\t\tnum[start] = '-'\n\t}\n\tif 3 < end-start && num[end-1] == '0' && num[end-2] == '0' && num[end-3] == '0' && dot == end {\n\t\tnum[end-3] = 'e'\n\t\tnum[end-2] = '3'\n\t\tend--\n\t}\n\treturn num[start:end]\n}\n\n// Number minifies",
 		Rule: "R08.1", Construct: "Decimal"})
 	mutant(&Mutant{Name: "c08-decimal-calls-number", Property: "C08", File: "common.go",
-		Old: "func Decimal(num []byte, prec int) []byte {\n\tif len(num) <= 1 {\n\t\treturn num\n\t}\n", New: "func Decimal(num []byte, prec int) []byte {\n\tif len(num) <= 1 {\n\t\treturn num\n\t}\n\tif prec < 0 {\n\t\treturn Number(num, 0)\n\t}\n",
+		Old: "func Decimal(num []byte, prec int) []byte {\n\tif len(num) <= 1 {\n\t\treturn num\n\t} else if", New: "func Decimal(num []byte, prec int) []byte {\n\tif prec < 0 {\n\t\treturn Number(num, 0)\n\t}\n\tif len(num) <= 1 {\n\t\treturn num\n\t} else if",
 		Rule: "R08.1", Construct: "Decimal"})
 	mutant(&Mutant{Name: "c08-number-writes-past-len", Property: "C08", File: "common.go",
 		Old: "\tif neg {\n\t\tstart--\n\t\tnum[start] = '-'\n\t}\n\treturn num[start:end]\n}\n\nfunc UpdateErrorPosition", New: "\tif neg {\n\t\tstart--\n\t\tnum[start] = '-'\n\t}\n\tif end < cap(num) {\n\t\tnum[:cap(num)][end] = 0\n\t}\n\treturn num[start:end]\n}\n\nfunc UpdateErrorPosition",
